@@ -117,6 +117,11 @@ def _neighbour_chords(t, R, surviving):
         n = R.n_int[ri]
         chain = [("J", r.a)] + [("I", ri, k) for k in range(n)] + [("J", r.b)]
         pts = [t.J[r.a]] + t.points(ri, n) + [t.J[r.b]]
+        # use the realised coordinates where the vertex exists (they are what forsys sees, e.g. after an exact snap)
+        for k, tok in enumerate(chain):
+            vid = R.vid_of_tok.get(tok)
+            if vid is not None and vid in R.vertices:
+                pts[k] = complex(R.vertices[vid].x, R.vertices[vid].y)
         alive = [k for k, tok in enumerate(chain) if k in (0, len(chain) - 1) or
                  (tok in R.vid_of_tok and R.vid_of_tok[tok] in surviving)]
         k1 = alive[1]
@@ -200,9 +205,11 @@ def build_static(t0, nint, lab, pose, ne=None, replace_short=True, fit="dlite", 
     cols, rows, at, ambiguous = structure(t1, nint, ignore_four)
     used_ends = [(ri, j) for j in rows for ri in at[j]]
 
-    def make(angle):
+    def make(angle, snap=False):
         t2 = t1.similarity(angle=angle, shift=sh)
         R = realise(t2, nint, lab)
+        if snap:
+            gen.snap_chord_exact(t2, R, q)
         v, e, c = R.vertices, R.edges, R.cells
         if ne is not None:
             try:
@@ -215,7 +222,7 @@ def build_static(t0, nint, lab, pose, ne=None, replace_short=True, fit="dlite", 
         return t2, R
 
     try:
-        t2, R = make(angle)
+        t2, R = make(angle, snap=(q.get("rot_mode") == "snapchord" and ne is None))
     except MeshRejected:
         return "rejected"
     chords0 = _neighbour_chords(t2, R, set(R.vertices))
